@@ -854,6 +854,38 @@ func genOrder(r *rand.Rand, i int) *launchCase {
 	return lc
 }
 
+// ---------------------------------------------------------------- corpus
+
+// loadCorpus reads <verif>/corpus/C18/*.json: directory contents replayed before the generated streams.
+func loadCorpus() ([]*launchCase, error) {
+	files, _ := filepath.Glob(filepath.Join(verifDir(), "corpus", "C18", "*.json"))
+	sort.Strings(files)
+	var out []*launchCase
+	for _, f := range files {
+		b, err := os.ReadFile(f)
+		if err != nil {
+			return nil, err
+		}
+		var in struct {
+			ID      string   `json:"id"`
+			Entries []entry  `json:"entries"`
+			Dropins []dropin `json:"dropins"`
+		}
+		if err := json.Unmarshal(b, &in); err != nil {
+			return nil, fmt.Errorf("%s: %w", f, err)
+		}
+		lc := &launchCase{Stream: "corpus", ID: in.ID, Outcomes: map[string]string{}, Entries: []entry{}, Dropins: in.Dropins, Obs: []pluginObs{}, Events: []eventObs{}}
+		if lc.Dropins == nil {
+			lc.Dropins = []dropin{}
+		}
+		for _, en := range in.Entries {
+			lc.add(en.Name, en.Kind, en.Mode)
+		}
+		out = append(out, lc)
+	}
+	return out, nil
+}
+
 // ---------------------------------------------------------------- driver
 
 func driveLaunch(c *hx.Ctx) error {
@@ -902,6 +934,13 @@ func driveLaunch(c *hx.Ctx) error {
 		{"dropins", c.Pick(18, 180), genDropins},
 		{"faults", c.Pick(18, 240), func(r *rand.Rand, i int) *launchCase { return genFaults(r, i, i < slow) }},
 		{"order", c.Pick(10, 150), genOrder},
+	}
+	corpus, err := loadCorpus()
+	if err != nil {
+		return err
+	}
+	if len(corpus) > 0 {
+		streams = append([]stream{{"corpus", len(corpus), func(_ *rand.Rand, i int) *launchCase { return corpus[i] }}}, streams...)
 	}
 	var total, failing int
 	for _, s := range streams {
